@@ -116,7 +116,9 @@ func (iq *IQ) UnmarshalXML(d *xml.Decoder, start xml.StartElement) error {
 
 		switch tt := t.(type) {
 		case xml.StartElement:
-			if tt.Name.Local == "error" {
+			// The stanza error is the <error/> of the stanza's own namespace: a payload that happens to be
+			// called error in a namespace of its own is a payload
+			if tt.Name.Local == "error" && tt.Name.Space == start.Name.Space {
 				var xmppError Err
 				err = d.DecodeElement(&xmppError, &tt)
 				if err != nil {
